@@ -53,6 +53,31 @@ WHY.update({
  "C01-5": "?", "C01-6": "?",
 })
 
+WHY.update({
+ "C01-5": "the cmdline family had no module-less *reference* file next to a generator", "C01-6": "",
+ "C01-7": "no multi-file case had a note pointing into another file at an element that spans several lines, on rows where the first file is short",
+ "C01-8": "no family put long non-ASCII text inside a token that a syntax error quotes",
+ "C02-7": "C02's programs hold no preprocessor directives (the change repeats third-round idea C06-6; C06 caught it at once)",
+ "C03-8": "C03 observes bindings in the AST; the change is in the request converter (C08 caught it at once)",
+ "C05-7": "all scoped names had the shape A::N3: no two sets of names that read the same once joined",
+ "C05-8": "alias targets were wrapped in value position only, never as a dictionary key",
+ "C06-7": "no doc comment was split by directives; lint positions were only planted on definitions",
+ "C07-7": "C07's error classes are single-file; here the error hides behind another file's #define (C06 caught it at once)",
+ "C07-8": "C07's error classes hold no inheritance loop below an outsider (C05 caught it at once)",
+ "C08-7": "C08's reference is the AST, which the change corrupts consistently (C03 and C05 caught it at once)",
+ "C08-8": "same (C16 caught it at once)",
+ "C09-7": "diagnostic locations were checked for sanity and against the injected snippet's lines, not against the element the message names",
+ "C10-8": "no map had more than a few hundred entries",
+ "C11-7": "C11 observes the codec; the change is in the binary's reply handling (C18 caught it at once)",
+ "C12-7": "no position came near 2^32",
+ "C13-8": "the unfinished-container witnesses had no same-named element in an enclosing scope",
+ "C15-7": "collisions were between definitions and modules, not between two spellings of one non-existent name (C03 caught it at once)",
+ "C15-8": "no lint arose twice in one module from different files (C13 does not see it either: it compiles in one order)",
+ "C18-8": "seen in the agent's report before the first run - every stderr behaviour of the fake generator wrote visible text - and added first",
+ "C19-8": "every generator of a run had an executable of its own",
+})
+
+
 def main():
     rnd = int(sys.argv[1]) if len(sys.argv) > 1 else 2
     for sid in sorted(os.listdir("/verif/seeded")):
